@@ -46,6 +46,10 @@ RejectAt == /\ outcome = "running" /\ stage <= Len(Stages)
             /\ outcome' = "rejected" /\ UNCHANGED <<rules, stage>>
 LNext == Advance \/ RejectAt
 LSpec == LInit /\ [][LNext]_lvars
+\* liveness ("... or runs to completion"): under weak fairness every life cycle ends, rejected or completed
+LFair == LSpec /\ WF_lvars(LNext)
+EveryLifeCycleEnds == <>(outcome \in {"rejected", "completed"})
+AcceptedRunsToCompletion == (rules = {}) ~> (outcome = "completed")
 
 \* the property on the specification itself
 RejectedEarlyOrCompleted ==
